@@ -99,6 +99,7 @@ type dbOp struct {
 	Name    string `json:"name"`
 	Ms      int    `json:"ms"`
 	Quiet   bool   `json:"quiet"`
+	Until   int    `json:"until"` // grave, schedule driver: wait (real time) until the graveyard holds until-1 objects
 	NilEmpt bool   `json:"nilempty"`
 }
 
@@ -622,6 +623,15 @@ func (st *dbState) exec(op dbOp) Ev {
 		st.metrics.mu.Lock()
 		n, trk := st.metrics.grave[name], st.metrics.trk[name]
 		st.metrics.mu.Unlock()
+		if st.concurrent && op.Until > 0 {
+			// real time (schedule driver): give the collector up to 3 s to reach the size it must reach
+			for i := 0; i < 1500 && n != op.Until-1; i++ {
+				time.Sleep(2 * time.Millisecond)
+				st.metrics.mu.Lock()
+				n, trk = st.metrics.grave[name], st.metrics.trk[name]
+				st.metrics.mu.Unlock()
+			}
+		}
 		return Ev{"op": "grave", "t": op.T, "quiet": op.Quiet, "n": n, "trackers": trk}
 	}
 	panic(fmt.Sprintf("drv_db: unknown op %q", op.Op))
